@@ -13,6 +13,12 @@
 //
 // against a table written from the property statement. Names become "known to be genuine" only through the
 // production insert paths (DnsController.NormalizeAndCacheDnsResp_, ControlPlane.probeAndUpdateRealDomain).
+//
+//	C..F: probe outcomes, sniffer in front, reload histories, time (see the legs)
+//	G: histories of upstream response SHAPES (rcode x answer/authority form x QR bit x family x key) in front of
+//	   domain mode: only an answer that resolved the name makes it "resolved through dae"
+//	H: every string TWICE (flow 1 -> whatever background verification the code starts, run to completion under the
+//	   deterministic scheduler -> flow 2) with a resolver seam that treats IP-literal hosts like the real resolver
 package main
 
 import (
@@ -111,6 +117,80 @@ func probeFindsAddress(o [2]uint8) bool {
 	return o[0] == control.VerifC18ProbeAddr || o[1] == control.VerifC18ProbeAddr
 }
 
+// ---- upstream response shapes (leg G alphabet; a few of them also as named forms in every other leg) ----
+//
+// cls: what the message means for "the name was resolved through dae", read from the statement:
+//
+//	2 = it resolved the name: a response, NOERROR, carrying an address of the queried type for the name
+//	    (directly or at the end of a CNAME chain)
+//	1 = a NOERROR response without an address (NODATA, CNAME only): the statement does not settle it => open
+//	0 = it did not resolve the name: any error rcode (NXDOMAIN with or without SOA / CNAME, SERVFAIL, REFUSED),
+//	    or a message that is not a response at all
+type respShape struct {
+	name string
+	cls  int
+	mk   func(qtype uint16, scoped bool) control.VerifC18Resp
+}
+
+func shapeAddr(qtype uint16) []string {
+	if qtype == typeA {
+		return []string{"198.51.100.30"}
+	}
+	return []string{"2001:db8::30"}
+}
+
+var respShapes = []respShape{
+	{"ok", 2, func(q uint16, sc bool) control.VerifC18Resp {
+		return control.VerifC18Resp{Addrs: shapeAddr(q), TTL: 3600, Scoped: sc}
+	}},
+	{"ok-cname", 2, func(q uint16, sc bool) control.VerifC18Resp {
+		return control.VerifC18Resp{Cname: "target.example", Addrs: shapeAddr(q), TTL: 3600, Scoped: sc}
+	}},
+	{"nodata", 1, func(q uint16, sc bool) control.VerifC18Resp {
+		return control.VerifC18Resp{SOA: true, TTL: 3600, Scoped: sc}
+	}},
+	{"cname-only", 1, func(q uint16, sc bool) control.VerifC18Resp {
+		return control.VerifC18Resp{Cname: "target.example", SOA: true, TTL: 3600, Scoped: sc}
+	}},
+	{"nxdomain+soa", 0, func(q uint16, sc bool) control.VerifC18Resp {
+		return control.VerifC18Resp{Rcode: 3, SOA: true, TTL: 3600, Scoped: sc}
+	}},
+	{"nxdomain", 0, func(q uint16, sc bool) control.VerifC18Resp {
+		return control.VerifC18Resp{Rcode: 3, TTL: 3600, Scoped: sc}
+	}},
+	{"nxdomain+cname", 0, func(q uint16, sc bool) control.VerifC18Resp {
+		return control.VerifC18Resp{Rcode: 3, Cname: "target.example", SOA: true, TTL: 3600, Scoped: sc}
+	}},
+	{"servfail", 0, func(q uint16, sc bool) control.VerifC18Resp {
+		return control.VerifC18Resp{Rcode: 2, TTL: 3600, Scoped: sc}
+	}},
+	{"refused", 0, func(q uint16, sc bool) control.VerifC18Resp {
+		return control.VerifC18Resp{Rcode: 5, TTL: 3600, Scoped: sc}
+	}},
+	{"not-a-response", 0, func(q uint16, sc bool) control.VerifC18Resp {
+		return control.VerifC18Resp{NotResponse: true, Addrs: shapeAddr(q), TTL: 3600, Scoped: sc}
+	}},
+}
+
+func shapeByName(n string) respShape {
+	for _, sh := range respShapes {
+		if sh.name == n {
+			return sh
+		}
+	}
+	panic("C18: no response shape " + n)
+}
+
+// names that only ever got non-resolving messages: not known by any reading of the statement
+var unresolvedNamed = []struct {
+	name  string
+	shape respShape
+}{
+	{"nx.example", shapeByName("nxdomain+soa")}, {"nxbare.example", shapeByName("nxdomain")},
+	{"nxcname.example", shapeByName("nxdomain+cname")}, {"servfail.example", shapeByName("servfail")},
+	{"refused.example", shapeByName("refused")}, {"notresp.example", shapeByName("not-a-response")},
+}
+
 func seed(env *control.VerifC18Env) error {
 	both := []string{"known.example", "name.com", "direct.example", "blocked.example", "MiXed.Example"}
 	for _, n := range both {
@@ -129,6 +209,20 @@ func seed(env *control.VerifC18Env) error {
 	}
 	if err := env.LearnDNS("nodata.example", typeAAAA, nil, 3600, true); err != nil {
 		return err
+	}
+	// names whose only upstream messages did NOT resolve them (every family, scoped and bare key alternating)
+	for i, n := range unresolvedNamed {
+		for _, qt := range []uint16{typeA, typeAAAA} {
+			if err := env.LearnDNSResp(n.name, qt, n.shape.mk(qt, i%2 == 0)); err != nil {
+				return fmt.Errorf("learn %s %s: %w", n.shape.name, n.name, err)
+			}
+		}
+	}
+	// a name resolved through a CNAME chain (answer: name CNAME target, target A/AAAA address)
+	for _, qt := range []uint16{typeA, typeAAAA} {
+		if err := env.LearnDNSResp("viacname.example", qt, shapeByName("ok-cname").mk(qt, true)); err != nil {
+			return fmt.Errorf("learn viacname: %w", err)
+		}
 	}
 	// the production probe body, once per name of the table; what it concluded is judged by the domain-mode
 	// cells of these names (not by its return value)
@@ -149,6 +243,11 @@ func init() {
 	}
 	dnsA["a4only.example"] = true
 	nodata["nodata.example"] = true
+	dnsA["viacname.example"], dnsAAAA["viacname.example"] = true, true
+	for _, n := range unresolvedNamed { // nothing enters dnsA / dnsAAAA / nodata for them: knowledge 0
+		named = append(named, n.name)
+	}
+	named = append(named, "viacname.example", "Nx.Example", "nx.example.", "nx.example:443", "servfail.example:8443")
 	for _, x := range outcomeLetters {
 		for _, y := range outcomeLetters {
 			xi, _ := letterIdx(x)
@@ -295,6 +394,12 @@ func wantFor(mode string, isBuiltin bool, dst netip.Addr, s string) want {
 }
 
 func wantForH(mode string, isBuiltin bool, dst netip.Addr, s string, h hist) want {
+	return wantCore(mode, isBuiltin, s, func(cn string) int { return knowledgeH(cn, dst, h) })
+}
+
+// wantCore: the table of the statement over an arbitrary knowledge function (canonical name -> 2 known by every
+// reading, 1 open, 0 not known).
+func wantCore(mode string, isBuiltin bool, s string, know func(cn string) int) want {
 	if mode == "ip" || s == "" || isBuiltin {
 		return wantIP
 	}
@@ -305,7 +410,7 @@ func wantForH(mode string, isBuiltin bool, dst netip.Addr, s string, h hist) wan
 	switch p.cls {
 	case clsName:
 		cn := canon(s)
-		switch knowledgeH(cn, dst, h) {
+		switch know(cn) {
 		case 2:
 			if s == cn {
 				return wantName
@@ -316,7 +421,7 @@ func wantForH(mode string, isBuiltin bool, dst netip.Addr, s string, h hist) wan
 		}
 		return wantIP
 	case clsNamePort:
-		if knowledgeH(canon(p.host), dst, h) > 0 {
+		if know(canon(p.host)) > 0 {
 			return wantEither
 		}
 		return wantIP
@@ -466,6 +571,9 @@ var named = []string{
 	"2606:4700:20::681a:d1f", "[2606:4700:20::681a:d1f]", "[2606:4700:20::681a:d1f]:65535", "fe80::1%eth0", "[fe80::1%eth0]", "[fe80::1%eth0]:1",
 	"[", "]", "[]", "a:b:c", "[known.example]", "[known.example]:443", "known.example:", ":443", "known.example:0", "known.example:65536",
 	"known.example:http", "1.2.3.4.", "1.2.3", "256.1.1.1", "known.example ", " known.example", "xn--fiq228c.example",
+	// IP literals over the whole hex alphabet / without any digit / shortest forms / upper case
+	"::", "[::]", "[::]:443", "fd00::1", "FD00::1", "[fd00::1]", "[fd00::1]:443", "fe80::1", "ff02::1", "abcd:ef01::1", "[ABCD:EF01::1]",
+	"::a", "a::", "a::a", "::ffff:a:a", "f::", "::f", "dead:beef::", "fd00::1:443", "1::", "::1:1",
 }
 
 func allStrings(maxLen int) []string {
@@ -537,7 +645,7 @@ func main() {
 	r.Set("strings_leg_B", len(stringsB))
 	r.Set("max_len_leg_A", lenA)
 	r.Set("max_len_leg_B", lenB)
-	r.Rule(fmt.Sprintf("full product of 4 dial modes x outbound index x dst {v4,v6,v4-mapped} x port {1,443,65535} x sniffed string, where the strings are a de-duplicated set of %d named forms plus every string of length<=%d (leg A: ChooseDialTarget) / <=%d (leg B: routeDial + chooseProxyDialer, tcp and udp) over {a . : [ ] 1}; leg A additionally sweeps all 256 outbound indices over the named forms; leg D sends every leg-A string as the Host field of an HTTP request through the real sniffer in front of ChooseDialTarget (2 outbounds); leg E runs the named forms after every history of length<=3 (quick) / <=4 (thorough) over {seed, reload-by-cache-replay, reload-by-store-reuse}; leg F runs every history of length<=3 (quick) / <=4 (thorough) over {resolve with TTL 10 s/60 s under a scoped/bare key, advance the virtual clock by 9.999 s / 2 ms / 55 s, reload by replay / by reuse} and then queries domain mode for the name, a case variant and another name on a v4 and a v6 destination; leg C runs, per (mode, outbound, dst, port), the 9 per-family probe outcomes {addr,nodata,error}^2 as flow 1 -> background verification probe -> flow 2 on a fresh name. A case is (leg, history, mode, outbound, dst, port, network, string); it is non-trivial when the string is non-empty; distinct_nontrivial is counted from the de-duplicated string set per distinct (leg, mode, outbound, dst, port, network) cell (cells are checked for uniqueness)", len(named), lenA, lenB))
+	r.Rule(fmt.Sprintf("full product of 4 dial modes x outbound index x dst {v4,v6,v4-mapped} x port {1,443,65535} x sniffed string, where the strings are a de-duplicated set of %d named forms plus every string of length<=%d (leg A: ChooseDialTarget) / <=%d (leg B: routeDial + chooseProxyDialer, tcp and udp) over {a . : [ ] 1}; leg A additionally sweeps all 256 outbound indices over the named forms; leg D sends every leg-A string as the Host field of an HTTP request through the real sniffer in front of ChooseDialTarget (2 outbounds); leg E runs the named forms after every history of length<=3 (quick) / <=4 (thorough) over {seed, reload-by-cache-replay, reload-by-store-reuse}; leg F runs every history of length<=3 (quick) / <=4 (thorough) over {resolve with TTL 10 s/60 s under a scoped/bare key, advance the virtual clock by 9.999 s / 2 ms / 55 s, reload by replay / by reuse} and then queries domain mode for the name, a case variant and another name on a v4 and a v6 destination; leg C runs, per (mode, outbound, dst, port), the 9 per-family probe outcomes {addr,nodata,error}^2 as flow 1 -> background verification probe -> flow 2 on a fresh name; leg G hands every history of length<=2 (quick) / <=3 (thorough) over {A,AAAA} x 10 upstream response shapes {address, CNAME+address, NODATA, CNAME only, NXDOMAIN with SOA / bare / with CNAME, SERVFAIL, REFUSED, QR bit clear} x {scoped, bare key} to NormalizeAndCacheDnsResp_ on a fresh control plane and then dials the name, a spelling variant, name:port and another name in domain mode (histories of length<=1 in all 4 modes) through ChooseDialTarget (user and built-in outbound) and routeDial on 3 destination kinds; leg H dials every leg-A string twice per (mode, 3 outbounds, 3 destination kinds) under the deterministic scheduler with the background verification run to completion in between (plus 9 fresh names per cell, one per probe outcome), the resolver seam answering IP-literal hosts through the real resolver. A case is (leg, history, mode, outbound, dst, port, network, string); it is non-trivial when the string is non-empty; distinct_nontrivial is counted from the de-duplicated string set per distinct (leg, mode, outbound, dst, port, network) cell (cells are checked for uniqueness)", len(named), lenA, lenB))
 
 	evals := r.Counter("evaluations")
 	distinct := r.Counter("distinct_nontrivial")
@@ -621,6 +729,17 @@ func main() {
 	}
 
 	dump := os.Getenv("C18_DUMP") != ""
+	// developer switch: C18_LEGS=FH runs only the named legs (the run is then marked as not exhaustive)
+	onlyLegs := os.Getenv("C18_LEGS")
+	if onlyLegs != "" {
+		r.CapHit("C18_LEGS=" + onlyLegs + ": only the named legs were run")
+	}
+	legN := func(leg string, n int) int {
+		if onlyLegs != "" && !strings.Contains(onlyLegs, leg) {
+			return 0
+		}
+		return n
+	}
 	sampleA := map[string]bool{
 		"domain|2|203.0.113.9:443|known.example":         true,
 		"domain|2|203.0.113.9:443|unknown.example":       true,
@@ -662,7 +781,7 @@ func main() {
 		}
 	}
 	r.Set("cells_leg_A", len(chunksA))
-	r.ParallelFor(len(chunksA), func(i int) {
+	r.ParallelFor(legN("A", len(chunksA)), func(i int) {
 		c := chunksA[i]
 		if r.OverBudget(100*time.Second, 9*time.Minute) {
 			r.CapHit("leg A time budget")
@@ -735,7 +854,7 @@ func main() {
 	}
 	r.Set("cells_leg_B", len(chunksB))
 	groupOf := map[uint8]string{0: "direct", 1: "block", 2: "g1", 3: "g2"}
-	r.ParallelFor(len(chunksB), func(i int) {
+	r.ParallelFor(legN("B", len(chunksB)), func(i int) {
 		c := chunksB[i]
 		if r.OverBudget(110*time.Second, 10*time.Minute) {
 			r.CapHit("leg B time budget")
@@ -866,7 +985,7 @@ func main() {
 	cProbeRan := r.Counter("legC_background_probes_completed")
 	cVerifiedAfter := r.Counter("legC_flow2_dialled_by_name_after_successful_probe")
 	cRefusedAfter := r.Counter("legC_flow2_kept_ip_after_probe_without_address")
-	r.ParallelFor(len(chunksC), func(i int) {
+	r.ParallelFor(legN("C", len(chunksC)), func(i int) {
 		c := chunksC[i]
 		env := seedEnv(c.mode)
 		if env == nil {
@@ -948,7 +1067,7 @@ func main() {
 	r.Set("cells_leg_D", len(chunksD))
 	cSniffed := r.Counter("legD_sniffer_returned_a_name")
 	cSniffEmpty := r.Counter("legD_sniffer_returned_nothing")
-	r.ParallelFor(len(chunksD), func(i int) {
+	r.ParallelFor(legN("D", len(chunksD)), func(i int) {
 		c := chunksD[i]
 		if r.OverBudget(120*time.Second, 10*time.Minute) {
 			r.CapHit("leg D time budget")
@@ -1065,7 +1184,7 @@ func main() {
 	r.Set("histories_leg_E", len(histories))
 	cReloads := r.Counter("legE_reloads_performed")
 	cKnownAfterReload := r.Counter("legE_name_dialled_because_resolved_before_a_reload")
-	r.ParallelFor(len(chunksE), func(i int) {
+	r.ParallelFor(legN("E", len(chunksE)), func(i int) {
 		c := chunksE[i]
 		if r.OverBudget(130*time.Second, 11*time.Minute) {
 			r.CapHit("leg E time budget")
@@ -1196,7 +1315,7 @@ func main() {
 	cRefreshWindow := r.Counter("legF_known_only_by_a_later_resolution")
 	timedSniffs := []string{timedName, "Timed.Example.", "other.example"}
 	timedDsts := []netip.AddrPort{netip.AddrPortFrom(dsts[0].addr, 443), netip.AddrPortFrom(dsts[1].addr, 443)}
-	for hi, hF := range historiesF {
+	for hi, hF := range historiesF[:legN("F", len(historiesF))] {
 		if r.OverBudget(150*time.Second, 12*time.Minute) {
 			r.CapHit("leg F time budget")
 			break
@@ -1306,6 +1425,354 @@ func main() {
 		_ = hi
 	}
 
+	// ---------------- leg G: histories of upstream response SHAPES ----------------
+	// Every sequence of length <= maxG over {A, AAAA} x respShapes x {scoped key, bare key} is handed to
+	// NormalizeAndCacheDnsResp_ (the function dialSend gives every upstream message to) on a fresh control plane;
+	// then the name, a case/trailing-dot variant, the name with a port and another name are dialled in domain mode
+	// (ChooseDialTarget with a user outbound and a built-in one, routeDial) on the three destination kinds.
+	// Reference, per family: 2 (resolved) iff the LAST message of that family resolved the name; 1 (open) if an
+	// earlier one did or some NOERROR answer without an address was seen; 0 otherwise — error rcodes and
+	// non-responses never make a name "resolved through dae". Histories of length <= 1 also run the other 3 modes.
+	const gName = "resp.example"
+	type opG struct {
+		qtype  uint16
+		shape  respShape
+		scoped bool
+	}
+	var opsG []opG
+	for _, qt := range []uint16{typeA, typeAAAA} {
+		for _, sh := range respShapes {
+			for _, sc := range []bool{true, false} {
+				opsG = append(opsG, opG{qt, sh, sc})
+			}
+		}
+	}
+	opGName := func(o opG) string {
+		f, k := "A", "bare"
+		if o.qtype == typeAAAA {
+			f = "AAAA"
+		}
+		if o.scoped {
+			k = "scoped"
+		}
+		return f + ":" + o.shape.name + "/" + k
+	}
+	maxG := 2
+	if r.Thorough() {
+		maxG = 3
+	}
+	var historiesG [][]opG
+	var recG func(cur []opG)
+	recG = func(cur []opG) {
+		historiesG = append(historiesG, append([]opG(nil), cur...)) // the empty history is the base line: nothing known
+		if len(cur) == maxG {
+			return
+		}
+		for _, o := range opsG {
+			recG(append(cur, o))
+		}
+	}
+	recG(nil)
+	type chunkG struct {
+		mode string
+		h    []opG
+	}
+	var chunksG []chunkG
+	for _, h := range historiesG {
+		chunksG = append(chunksG, chunkG{"domain", h})
+		if len(h) <= 1 {
+			for _, m := range []string{"ip", "domain+", "domain++"} {
+				chunksG = append(chunksG, chunkG{m, h})
+			}
+		}
+	}
+	r.Set("ops_leg_G", len(opsG))
+	r.Set("histories_leg_G", len(historiesG))
+	r.Set("cells_leg_G", len(chunksG))
+	cGKnown := r.Counter("legG_histories_name_resolved_for_some_family")
+	cGNeg := r.Counter("legG_histories_with_only_non_resolving_messages")
+	cGNegIP := r.Counter("legG_domain_mode_kept_ip_after_only_non_resolving_messages")
+	cGName := r.Counter("legG_domain_mode_dialled_by_name_after_a_resolving_answer")
+	sniffsG := []string{gName, "Resp.Example.", gName + ":443", "other.example"}
+	r.ParallelFor(legN("G", len(chunksG)), func(i int) {
+		c := chunksG[i]
+		if r.OverBudget(160*time.Second, 14*time.Minute) {
+			r.CapHit("leg G time budget")
+			return
+		}
+		var names []string
+		for _, o := range c.h {
+			names = append(names, opGName(o))
+		}
+		hs := strings.Join(names, " ; ")
+		env, err := control.VerifC18NewEnv(c.mode, conf, []string{"g1", "g2"})
+		if err != nil {
+			r.Violation("harness: environment build failed: "+err.Error(), err.Error())
+			return
+		}
+		defer env.Close()
+		// reference knowledge per family
+		lv := map[uint16]int{}
+		onlyNeg := len(c.h) > 0
+		for _, o := range c.h {
+			switch o.shape.cls {
+			case 2:
+				lv[o.qtype] = 2
+			default:
+				if lv[o.qtype] == 2 || o.shape.cls == 1 {
+					lv[o.qtype] = 1
+				}
+			}
+			if o.shape.cls != 0 {
+				onlyNeg = false
+			}
+			failed := false
+			if p, msg := vlib.Try(func() {
+				if err := env.LearnDNSResp(gName, o.qtype, o.shape.mk(o.qtype, o.scoped)); err != nil {
+					r.Violation(fmt.Sprintf("leg=G history=[%s]: NormalizeAndCacheDnsResp_ failed: %v", hs, err), err.Error())
+					failed = true
+				}
+			}); p {
+				r.Violation(fmt.Sprintf("leg=G history=[%s] panic in NormalizeAndCacheDnsResp_ at %s", hs, vlib.PanicSite(msg)), msg)
+				return
+			}
+			if failed {
+				return
+			}
+		}
+		if c.mode == "domain" {
+			if lv[typeA] == 2 || lv[typeAAAA] == 2 {
+				cGKnown.Add(1)
+			}
+			if onlyNeg {
+				cGNeg.Add(1)
+			}
+		}
+		a, aaaa := lv[typeA], lv[typeAAAA]
+		for _, d := range dsts {
+			dst := netip.AddrPortFrom(d.addr, 443)
+			know := func(cn string) int {
+				if cn != gName {
+					return 0
+				}
+				switch {
+				case a == 2 && aaaa == 2, dst.Addr().Is4() && a == 2, dst.Addr().Is6() && !dst.Addr().Is4In6() && aaaa == 2:
+					return 2
+				case a > 0 || aaaa > 0:
+					return 1
+				}
+				return 0
+			}
+			for _, s := range sniffsG {
+				for _, via := range []string{"choose/2", "choose/0", "routeDial/3"} {
+					evals.Add(1)
+					distinct.Add(1)
+					sig := fmt.Sprintf("leg=G history=[%s] mode=%s via=%s dst=%v sniffed=%q", hs, c.mode, via, dst, s)
+					var target string
+					var dialIp, isBuiltin bool
+					switch via {
+					case "routeDial/3":
+						var o control.VerifC18Obs
+						if p, msg := vlib.Try(func() { o = env.RouteDial(3, d.src, dst, s) }); p {
+							r.Violation(sig+" panic at "+vlib.PanicSite(msg), msg)
+							continue
+						}
+						if o.Err != "" || o.NilResult || len(o.Dials) != 1 || o.Dials[0].Addr != o.DialTarget {
+							if lim.ok("G-dial", 4) {
+								r.Violation(sig+fmt.Sprintf(": dial path failed or the node dialer got something else than the chosen target: err=%q dials=%v target=%q", o.Err, o.Dials, o.DialTarget), o)
+							}
+							continue
+						}
+						target, dialIp = o.DialTarget, o.IsDialIp
+						isBuiltin = o.FinalGroup == "direct" || o.FinalGroup == "block"
+					default:
+						ob := uint8(2)
+						if via == "choose/0" {
+							ob = 0
+						}
+						isBuiltin = builtin(ob)
+						if p, msg := vlib.Try(func() { target, _, dialIp = env.Choose(ob, dst, s) }); p {
+							r.Violation(sig+" panic at "+vlib.PanicSite(msg), msg)
+							continue
+						}
+					}
+					w := wantCore(c.mode, isBuiltin, s, know)
+					why := judgeW(w, c.mode, dst, s, target, dialIp)
+					if why != "" && lim.ok("G-target|"+c.mode, 6) {
+						r.Violation(sig+fmt.Sprintf(" got=%q dialIp=%v: %s", target, dialIp, why),
+							map[string]any{"history": names, "mode": c.mode, "via": via, "dst": dst.String(), "sniffed": s, "target": target, "dialIp": dialIp,
+								"reference_knowledge_A": a, "reference_knowledge_AAAA": aaaa, "why": why})
+					}
+					if why == "" && c.mode == "domain" && !isBuiltin && s == gName {
+						if onlyNeg {
+							cGNegIP.Add(1)
+						} else if w == wantName {
+							cGName.Add(1)
+						}
+					}
+					outcomeKinds.Store(fmt.Sprintf("G|%s|%s|a=%d|aaaa=%d|%s|%s|tgtIsIP=%v", c.mode, via, a, aaaa, d.name, clsNames[classify(s).cls], checkIPTarget(dst, target, true) == ""), true)
+				}
+			}
+		}
+	})
+
+	// ---------------- leg H: every string twice, background verification run to completion in between ----------------
+	// control/control_plane.go is compiled with its goroutines, locks and clock on the deterministic scheduler
+	// (check.json "instrument"), so the probe that ChooseDialTarget starts in the background (triggerRealDomainProbe ->
+	// go probeAndUpdateRealDomain) is a managed thread and vsched.Quiesce() returns exactly when it has finished —
+	// also when none was started. Per (mode, outbound, destination kind): flow 1, settle, flow 2 for every leg-A
+	// string and for 9 fresh names (one per per-family probe outcome). The resolver seam hands a host that is an IP
+	// literal to the real netutils.ResolveIp46 (which answers a literal with itself, no network), so a literal that
+	// slips through the literal guards gets "verified" here exactly as it would in production.
+	// Reference: the table; a second flow differs from the first only for a name whose probe found an address.
+	type chunkH struct {
+		mode string
+		ob   uint8
+		d    dstKind
+		strs []string
+		part int
+	}
+	const chunkLenH = 2048
+	var chunksH []chunkH
+	for _, m := range modes {
+		for _, o := range []uint8{2, 0xFB, 0} {
+			for _, d := range dsts {
+				for k, part := 0, 0; k < len(stringsA); k, part = k+chunkLenH, part+1 {
+					e := k + chunkLenH
+					if e > len(stringsA) {
+						e = len(stringsA)
+					}
+					chunksH = append(chunksH, chunkH{m, o, d, stringsA[k:e], part})
+				}
+			}
+		}
+	}
+	r.Set("cells_leg_H", len(chunksH))
+	cHProbeName := r.Counter("legH_flow2_dialled_by_name_after_successful_probe")
+	cHProbeIP := r.Counter("legH_flow2_kept_ip_after_probe_without_address")
+	cHLiteral := r.Counter("legH_ip_literal_strings_dialled_twice")
+	cHSame := r.Counter("legH_flow2_equal_to_flow1")
+	totalBefore, literalBefore := control.VerifC18ProbeResolverTotals()
+	type obsH struct {
+		s              string
+		fresh          bool
+		outcome        [2]uint8
+		t1, t2         string
+		rr1, rr2       bool
+		ip1, ip2       bool
+		panic1, panic2 string
+	}
+	for ci, c := range chunksH[:legN("H", len(chunksH))] {
+		if r.OverBudget(175*time.Second, 17*time.Minute) {
+			r.CapHit("leg H time budget")
+			break
+		}
+		dst := netip.AddrPortFrom(c.d.addr, 443)
+		cellKey := fmt.Sprintf("H|%s|%d|%s|%d", c.mode, c.ob, c.d.name, c.part)
+		if _, dup := cells.LoadOrStore(cellKey, true); dup {
+			r.Violation("harness: duplicate cell "+cellKey, nil)
+			continue
+		}
+		var todo []obsH
+		for _, s := range c.strs {
+			todo = append(todo, obsH{s: s})
+		}
+		if c.part == 0 {
+			for _, x := range outcomeLetters {
+				for _, y := range outcomeLetters {
+					n := fmt.Sprintf("c%c%c-h%d.example", x, y, ci)
+					oc, _ := dynamicProbeAnswer(n)
+					todo = append(todo, obsH{s: n, fresh: true, outcome: oc})
+				}
+			}
+		}
+		envFailed := false
+		cur := ""
+		res := vsched.Run(func() {
+			env := seedEnv(c.mode)
+			if env == nil {
+				envFailed = true
+				return
+			}
+			vsched.Quiesce()
+			for k := range todo {
+				o := &todo[k]
+				cur = o.s
+				if p, msg := vlib.Try(func() { o.t1, o.rr1, o.ip1 = env.Choose(c.ob, dst, o.s) }); p {
+					o.panic1 = msg
+					continue
+				}
+				vsched.Quiesce() // the background probe, if the code started one, runs to its end here
+				if p, msg := vlib.Try(func() { o.t2, o.rr2, o.ip2 = env.Choose(c.ob, dst, o.s) }); p {
+					o.panic2 = msg
+				}
+				vsched.Quiesce()
+			}
+			cur = "(closing)"
+			env.Close()
+		}, vsched.Options{MaxSteps: 1 << 24, HorizonNs: int64(2 * time.Hour)})
+		if envFailed {
+			continue
+		}
+		switch res.Status {
+		case vsched.StPanic:
+			r.Violation(fmt.Sprintf("leg=H mode=%s ob=%d dst=%v panic in a background thread while dialling %q at %s", c.mode, c.ob, dst, cur, vlib.PanicSite(res.PanicMsg)), res.PanicMsg)
+			continue
+		case vsched.StHorizon, vsched.StDiverged:
+			fmt.Fprintf(os.Stderr, "C18: leg H execution did not finish (status %d) in cell %s at %q\n", res.Status, cellKey, cur)
+			os.Exit(2)
+		}
+		for k := range todo {
+			o := &todo[k]
+			evals.Add(2)
+			if o.s != "" {
+				distinct.Add(2)
+			}
+			sig := fmt.Sprintf("leg=H mode=%s ob=%d dst=%v sniffed=%q", c.mode, c.ob, dst, o.s)
+			if o.panic1 != "" || o.panic2 != "" {
+				r.Violation(sig+" panic at "+vlib.PanicSite(o.panic1+o.panic2), o.panic1+o.panic2)
+				continue
+			}
+			w1 := wantFor(c.mode, builtin(c.ob), dst.Addr(), o.s)
+			if why := judgeW(w1, c.mode, dst, o.s, o.t1, o.ip1); why != "" && lim.ok("H-flow1|"+c.mode, 4) {
+				r.Violation(sig+fmt.Sprintf(" flow=1 got=%q dialIp=%v: %s", o.t1, o.ip1, why),
+					map[string]any{"mode": c.mode, "outbound": c.ob, "dst": dst.String(), "sniffed": o.s, "flow1": o.t1, "why": why})
+			}
+			w2 := w1
+			probedFresh := o.fresh && c.mode == "domain" && !builtin(c.ob)
+			if probedFresh && probeFindsAddress(o.outcome) {
+				w2 = wantName
+			}
+			why := judgeW(w2, c.mode, dst, o.s, o.t2, o.ip2)
+			if why != "" && lim.ok("H-flow2|"+c.mode, 6) {
+				r.Violation(sig+fmt.Sprintf(" flow=2 (same value again, after the background verification the first flow started has finished) got=%q dialIp=%v (flow 1 got %q): %s", o.t2, o.ip2, o.t1, why),
+					map[string]any{"mode": c.mode, "outbound": c.ob, "dst": dst.String(), "sniffed": o.s, "flow1": o.t1, "flow2": o.t2, "reroute2": o.rr2, "dialIp2": o.ip2, "why": why})
+			}
+			if c.mode == "domain++" && !builtin(c.ob) && o.s != "" && !o.rr2 && lim.ok("H-reroute", 4) {
+				r.Violation(sig+" flow=2: domain++ must ask for the flow to be routed again, shouldReroute=false", nil)
+			}
+			if why == "" {
+				if probedFresh {
+					if probeFindsAddress(o.outcome) {
+						cHProbeName.Add(1)
+					} else {
+						cHProbeIP.Add(1)
+					}
+				}
+				if o.t1 == o.t2 {
+					cHSame.Add(1)
+				}
+				if cl := classify(o.s).cls; cl == clsIPLit || cl == clsIPPort {
+					cHLiteral.Add(1)
+				}
+			}
+			outcomeKinds.Store(fmt.Sprintf("H|%s|builtin=%v|%s|fresh=%v|t1IsIP=%v|t2IsIP=%v", c.mode, builtin(c.ob), clsNames[classify(o.s).cls], o.fresh, checkIPTarget(dst, o.t1, true) == "", checkIPTarget(dst, o.t2, true) == ""), true)
+		}
+	}
+	totalAfter, literalAfter := control.VerifC18ProbeResolverTotals()
+	r.Set("legH_background_probes_that_reached_the_resolver", totalAfter-totalBefore)
+	r.Set("obs_legH_probes_asked_about_an_ip_literal", literalAfter-literalBefore)
+
 	nk := 0
 	outcomeKinds.Range(func(_, _ any) bool { nk++; return true })
 	r.Set("distinct_outcome_kinds", nk)
@@ -1332,7 +1799,9 @@ func main() {
 	r.Assume("leg C waits for the background probe by polling the stub's call counter and joining the probe's singleflight slot; the wall clock is used for that synchronisation only (a probe that never shows up within 60 s leaves flow 2 unjudged and clears 'exhaustive')")
 	r.Assume("leg D feeds the value as the Host field of an HTTP request through sniffing.Sniffer.SniffTcp (packet sniffer, i.e. the whole request is available at once; sniffGroup -> NormalizeDomain) and treats a sniffing error as 'no name' like handleConn does; the reference is applied to the field value as the client wrote it (surrounding white space removed); a value that is empty after removing the trailing dot counts as 'no name or that name'")
 	r.Assume("leg E: a reload is a new ControlPlane literal (fresh real-domain set and negative cache) whose DNS state is carried over either by cloneDnsCache + replayDnsReloadCache (RestoreReloadCache into a fresh DnsController) or by DnsController.ReuseForReload (shared store). Names resolved through dae before a reload remain 'resolved through dae' (dae keeps answering them from the carried cache): strict. Names only verified by the probe before a reload: open (both outcomes accepted)")
-	r.Assume("leg F: control/dns_control.go, dns_cache.go and dns_control_optimistic.go run on the virtual clock of vsched (overlay instrumentation); the rest of package control (ChooseDialTarget itself, the real-domain caches) is not instrumented and does not read that clock on the paths of this leg. 'Resolved through dae' at time t = some answer for the name learned through NormalizeAndCacheDnsResp_ whose TTL has not run out at t (maximum over all resolutions, across reloads); no wall-clock reading enters the reference")
+	r.Assume("leg G: 'resolved through dae' is read per address family from the messages handed to NormalizeAndCacheDnsResp_: a response (QR set) with rcode NOERROR carrying an address of the queried type for the name, directly or behind a CNAME, resolves it; an error rcode (NXDOMAIN with/without SOA or CNAME, SERVFAIL, REFUSED) or a message with the QR bit clear never does (strict: domain mode must keep the destination IP when nothing else is known); a NOERROR answer without an address (NODATA, CNAME only) and a resolving answer followed later by a non-resolving one for the same family are open (both outcomes accepted). Error-rcode messages that nevertheless carry address records are not in the alphabet")
+	r.Assume("leg H: control/control_plane.go and dns_runtime.go are compiled onto vsched too, so the goroutine triggerRealDomainProbe starts is a managed thread and vsched.Quiesce() is an exact join (no polling, no wall clock). The resolver seam answers table names from the table, unknown names with an error on both families, and a host that parses as an IP literal by calling the real netutils.ResolveIp46 (its literal fast path returns the literal itself without touching the network) — the seam must not be kinder to the code than production is. The reference for flow 2 equals flow 1 except for a fresh name whose probe found an address; an IP literal is never a name known to be genuine")
+	r.Assume("leg F: control/dns_control.go, dns_cache.go, dns_control_optimistic.go, control_plane.go and dns_runtime.go run on the virtual clock of vsched (overlay instrumentation), so the DNS knowledge and the real-domain negative cache read the same virtual clock. 'Resolved through dae' at time t = some answer for the name learned through NormalizeAndCacheDnsResp_ whose TTL has not run out at t (maximum over all resolutions, across reloads); no wall-clock reading enters the reference")
 	r.Assume("cells the statement leaves open accept both outcomes and are counted separately: case/trailing-dot variants of a known name, a known name that already carries a port, a name known only for the other address family or only by an empty (NODATA) answer — all in domain mode")
 	r.Assume("well-formedness of the target is demanded for sniffed values that are host names, IP literals (bare/bracketed) or host:port with a valid port; for other strings ('[', 'a]', 'a:', ':1' ...) only absence of panic and the IP cells are checked, malformed results are counted in obs_garbage_sniff_gives_malformed_target")
 	r.Assume("dialIp must be true when the target is the destination IP or a normalised bare/bracketed IP literal and false for a host name; for an IP literal that already carries a port the statement says nothing about the flag: counted in obs_ip_literal_with_port_dialIp_false")
